@@ -377,3 +377,33 @@ Fixpoint conn_run (parse : bytes -> cres) (chunks : list bytes) (buf : bytes) (a
       | RMFuel => NoFuel
       end
   end.
+
+(* ---------- netServe's read loop around ReadMessages: socket read size vs pipeline buffer size ----------
+   packet := make([]byte, sock_read_size); n := conn.Read(packet); data := client.in.Begin(packet[:n]);
+   rdbuf := bytes.NewBuffer(data); ONE pr.ReadMessages(), which does ONE rd.Read(rd.packet[:]) of at most
+   pipeline_buf_size bytes; the unread tail of rdbuf goes to client.in.End and is only looked at again with
+   the NEXT socket read.  Both sizes are constants of the source; the harness compares them with the
+   literals in internal/server/server.go on every run. *)
+Definition sock_read_size : N := 65535.       (* netServe: packet := make([]byte, 0xFFFF) *)
+Definition pipeline_buf_size : N := 65535.    (* PipelineReader: packet [0xFFFF]byte *)
+
+Inductive serve_res :=
+| SOpen (msgs : list msg) (buf : bytes) (parked : bytes)   (* parked = client.in.b: bytes received, not yet parsed *)
+| SClosed (msgs : list msg) (e : cerr)
+| SCrashed
+| SNoFuel.
+
+Fixpoint serve_reads (parse : bytes -> cres) (psz : nat) (reads : list bytes) (parked buf : bytes) (acc : list msg) : serve_res :=
+  match reads with
+  | [] => SOpen acc buf parked
+  | r :: rest =>
+      let packet := parked ++ r in                      (* InputStream.Begin *)
+      let chunk := firstn psz packet in                  (* the single Read of ReadMessages *)
+      let parked' := skipn psz packet in                 (* InputStream.End(packet[len(packet)-rdbuf.Len():]) *)
+      match rm_step parse buf chunk with
+      | RM ms b None => serve_reads parse psz rest parked' b (acc ++ ms)
+      | RM ms b (Some e) => SClosed (acc ++ ms) e
+      | RMPanic => SCrashed
+      | RMFuel => SNoFuel
+      end
+  end.
